@@ -37,3 +37,37 @@ _t("C14",
    "over Store.UnminedTxs after generated store histories, plus a native fuzz target in the thorough tier.",
    "Trusted: the DAG-by-construction generator (inputs reference earlier transactions only).",
    "property-based testing + coverage-guided fuzzing with a validity-predicate oracle", "DESIGN.md §3 C14")
+
+HOOK_COMMITS.append("8359675")
+
+_t("C03",
+   "A model-based machine drives a real address manager through generated operation histories; every address it issues, looks up, derives or reloads is compared with an "
+   "independent BIP32/BIP44-86 derivation from the seed (including btcsuite's legacy hardened rule), indices must be consecutive, and after every step every issued address' "
+   "private key must equal the oracle's whenever the wallet is unlocked. Sampling of histories and seeds; no proof.",
+   "Trusted: internal/bip32ref (cross-checked against hdkeychain), btcec/btcutil address encoding primitives.",
+   "property-based testing: rapid stateful model vs independent derivation oracle", "DESIGN.md §3 C03")
+_t("C05",
+   "The same machine with a lock-state model: every private-material accessor of every managed address is exercised after every step and must succeed exactly when the model says "
+   "unlocked; wrong passphrases must fail and leave it locked; after each transition to locked a build-tagged memory report must show all clear-text key buffers wiped.",
+   "Trusted: the lock-state model; the read-only hook VerifSecretsReport (build tag verif) for the wiping half.",
+   "property-based testing: rapid stateful model + instrumentation hook", "DESIGN.md §3 C05")
+_t("C08",
+   "Differential oracle: after every generated step (committed, rolled back by error, or failed commit) a freshly opened manager on the same database answers the same query set as "
+   "the running one; any difference, or a next address that differs from what a restart would issue, is a violation.",
+   "Trusted: the database proxy that turns commits into failures; waddrmgr.Open as the definition of 'what a restart would say'.",
+   "property-based testing: rapid stateful generation with differential (running vs reopened) oracle", "DESIGN.md §3 C08")
+_t("C07",
+   "Generated (outputs, fee rate, coins, change type) inputs to txauthor.NewUnsignedTransaction; every authored transaction is really signed, its real virtual size measured and "
+   "every input verified by the script engine; conservation, fee lower/upper bound, dust rule and justified-insufficiency are checked. Includes the 252/253 compact-size boundary.",
+   "Trusted: btcd's script engine and mempool.GetTxVirtualSize; the harness copies of the two unexported input-source constructors.",
+   "property-based testing + coverage-guided fuzzing with arithmetic/validity oracles", "DESIGN.md §3 C07")
+_t("C17",
+   "Exhaustive-per-case tampering (every bit flip, every truncation) of real ciphertexts, passphrase near misses, parameter encodings and manager-level cross-key decryption, "
+   "plus two native fuzz targets. One genuine, unfixable deviation (F8) is excluded by an exact predicate and reported as KNOWN-FINDING.",
+   "Trusted: nothing beyond the Go standard library for comparison; secretbox/scrypt are the code under test's dependencies.",
+   "property-based testing + fuzzing: round-trip and tamper-rejection oracles", "DESIGN.md §3 C17")
+_t("C18",
+   "Generated producer/consumer/stop scripts run inside testing/synctest bubbles (Go 1.26.8) so blocking is observable without timeouts; received sequence must be a prefix of the "
+   "sent one and equal after draining, producers never block, the worker ends after Stop. Schedules are sampled, not enumerated.",
+   "Trusted: testing/synctest's notion of durably blocked; one producer at a time.",
+   "property-based testing with harness-owned scheduling (synctest)", "DESIGN.md §3 C18")
